@@ -63,6 +63,8 @@ class RModel(PlainModel):
         node = self.module.consts.get(name)
         if isinstance(node, ast.Name):
             return self.engine.lookup(node.id, St())   # alias like `unicode = str`
+        if isinstance(node, ast.Attribute) and node.attr == '__instancecheck__' and isinstance(node.value, ast.Name):
+            return ('instancecheck', self.engine.lookup(node.value.id, St()))    # `_isfloat = float.__instancecheck__`: _isfloat(x) is isinstance(x, float)
         if isinstance(node, ast.Tuple) and all(isinstance(e, (ast.Name, ast.Attribute, ast.Call)) for e in node.elts):
             # a module-level tuple of types (hoisted out of an isinstance test): evaluate its elements where they stand
             vals = []
@@ -79,6 +81,10 @@ class RModel(PlainModel):
         for k in kws:
             if k[0] == 'dstar':
                 st.emit('DSTAR', (f, k[1]), line)
+        if f[0] == 'instancecheck' and len(args) == 1 and not kws and self.engine is not None:
+            return self.engine.call(('lib', 'isinstance'), (args[0], f[1]), (), st, node)
+        if f[0] == 'attr' and f[2] == '__instancecheck__' and f[1][0] == 'lib' and len(args) == 1 and not kws and self.engine is not None:
+            return self.engine.call(('lib', 'isinstance'), (args[0], f[1]), (), st, node)      # float.__instancecheck__(x)
         if f == ('lib', 'round'):
             st.emit('ROUND', tuple(args), line)
             return [R(st, ('call', f, args, kws))]
@@ -119,6 +125,20 @@ def class_names(t):
     return ('?',)
 
 
+def _optional_defaults(fn, skip=1):
+    """{name: constant} for the parameters after the first `skip` ones that have a constant default"""
+    a = fn.args
+    pos = a.posonlyargs + a.args
+    out = {}
+    for arg_, d in zip(pos[len(pos) - len(a.defaults):], a.defaults):
+        if pos.index(arg_) >= skip and isinstance(d, ast.Constant):
+            out[arg_.arg] = C(d.value)
+    for arg_, d in zip(a.kwonlyargs, a.kw_defaults):
+        if d is not None and isinstance(d, ast.Constant):
+            out[arg_.arg] = C(d.value)
+    return out
+
+
 def factory_closures(repo):
     """[(factory FuncInfo, closure node, env, engine)] for each nested function of each rounding factory"""
     m = repo.mod('rounding')
@@ -129,7 +149,8 @@ def factory_closures(repo):
             raise AnalysisError('anchor vanished: klepto/rounding.py::%s' % fname)
         model = RModel(m)
         eng = Engine(model, unroll=1, comp_unroll=1)
-        outs = eng.run_function(fi.node, {})
+        # an optional parameter added to a factory (an opt-in feature) is judged at its constant default: that is the rounder every existing caller gets
+        outs = eng.run_function(fi.node, {}, params=_optional_defaults(fi.node, skip=1))
         rets = [o for o in outs if o.kind == RETURN]
         # functools.partial(<module-level function>, tol): the rounder is that function with its leading parameters bound (positional-only, or the
         # user's keywords could collide with them: K-CAPTURE)
@@ -159,7 +180,16 @@ def factory_closures(repo):
     todo = list(res)
     while todo:
         fi, node, env, eng, _main = todo.pop()
+        # calls that only an opt-in feature reaches (`if keeptype: x = _retype(j, x)` with keeptype=False by default) are not part of what existing callers run
+        off = set()
+        defaults_ = _optional_defaults(fi.node, skip=1)
+        for y in ast.walk(node):
+            if isinstance(y, ast.If) and isinstance(y.test, ast.Name) and y.test.id in defaults_ and not defaults_[y.test.id][1]:
+                for st_ in y.body:
+                    off |= set(id(z) for z in ast.walk(st_))
         for c in ast.walk(node):
+            if id(c) in off:
+                continue
             if isinstance(c, ast.Call) and isinstance(c.func, ast.Name) and c.func.id in m.functions and c.func.id not in FACTORIES:
                 h = m.functions[c.func.id]
                 if id(h.node) not in have:
@@ -354,15 +384,27 @@ def rule_R_NONE(ctx, repo):
         if init is not None and len(init.node.args.args) >= 2:
             tolp = ('param', init.node.args.args[1].arg)
             ieng = Engine(RModel(m, cls=ci), unroll=1)
-            iouts = [o for o in ieng.run_function(init.node, {}, params={init.node.args.args[0].arg: SELF}) if o.kind == RETURN]
+            iparams = {init.node.args.args[0].arg: SELF}
+            iparams.update(_optional_defaults(init.node, skip=2))      # opt-in parameters of the decorator at their defaults
+            iouts = [o for o in ieng.run_function(init.node, {}, params=iparams) if o.kind == RETURN]
             ok = bool(iouts)
+            facfn = m.functions.get(fac)
+            facdef = _optional_defaults(facfn.node, skip=1) if facfn is not None else {}
+            facpos = [a_.arg for a_ in (facfn.node.args.posonlyargs + facfn.node.args.args)] if facfn is not None else []
             for o in iouts:
                 sets = [e for e in o.st.events if e.kind == 'SELFSET']
                 rset = [e for e in sets if e.args[0] == SELF and e.args[1] == C('__round__')]
                 tset = [e for e in sets if e.args[0] == ('attr', SELF, '__round__') and e.args[1] == C('tol')]
                 good = (len(rset) == 1 and rset[0].args[2][0] == 'call' and rset[0].args[2][1] == ('lib', '%s.%s' % (m.rel, fac))
-                        and rset[0].args[2][2] == (tolp,) and not rset[0].args[2][3]
+                        and rset[0].args[2][2][:1] == (tolp,)
                         and len(tset) == 1 and tset[0].args[2] == tolp)
+                if good:
+                    # further arguments are the factory's own defaults (the call is factory(tol) for every existing caller)
+                    call_ = rset[0].args[2]
+                    for i_, a_ in enumerate(call_[2][1:], 1):
+                        good = good and i_ < len(facpos) and facdef.get(facpos[i_]) == a_
+                    for k_ in call_[3]:
+                        good = good and k_[0] == 'kw' and facdef.get(k_[1]) == k_[2]
                 ok = ok and good
         ctx.ob('R-NONE', '%s.__init__' % cname, ok)
         if not ok:
@@ -463,7 +505,8 @@ def rule_W_KEY_keygen(ctx, repo):
                         # v = M(*p0(G), **p1(G)); G = _keygen(f, ignored, *p0(R), **p1(R)); R = rounded_args(*A, **K)
                         G = v[2][0][1][2]
                         ok = (v[0] == 'call' and v[2] == (('star', ('proj', 0, G)),) and v[3] == (('dstar', ('proj', 1, G)),)
-                              and G[0] == 'call' and libname(G[1]) == '_keygen' and G[2][0] == fparam and G[2][1] == ignored)
+                              and G[0] == 'call' and libname(G[1]) == '_keygen' and G[2][0] == fparam
+                              and (G[2][1] == ignored or contains_term(G[2][1], lambda t: t == ignored)))     # the decorator's specification (possibly extended by an option)
                         Rr = G[2][2][1][2]
                         ok = ok and G[2][2] == ('star', ('proj', 0, Rr)) and G[3] == (('dstar', ('proj', 1, Rr)),)
                         ok = ok and Rr[0] == 'call' and Rr[1] == ra and len(Rr[2]) == 1 and Rr[2][0][0] == 'star' and len(Rr[3]) == 1 and Rr[3][0][0] == 'dstar'
@@ -471,7 +514,9 @@ def rule_W_KEY_keygen(ctx, repo):
                         if cname == 'func':
                             ok = ok and A == ('param', cnode.args.vararg.arg) and Kk == ('param', cnode.args.kwarg.arg)
                         else:
-                            ok = ok and A[0] == 'sub' and Kk[0] == 'sub' and A[1] == Kk[1] and A[2] == C(0) and Kk[2] == C(1)
+                            # the remembered pair: _args[0], _args[1] - or one snapshot of both slots (tuple(_args))
+                            ok = ok and ((A[0] == 'sub' and Kk[0] == 'sub' and A[1] == Kk[1] and A[2] == C(0) and Kk[2] == C(1)) or
+                                         (A[0] == 'proj' and Kk[0] == 'proj' and A[2] == Kk[2] and A[1] == 0 and Kk[1] == 1))
                         # the keymap is the registered one
                         ok = ok and v[1][0] == 'sub' and v[1][2] == C(0)
                     except (IndexError, TypeError):
@@ -541,6 +586,14 @@ def rule_R_PURE(ctx, repo):
                     used_elsewhere.add(origin.split('.')[-1])
         called = set(callee for ft in results.values() for _, callee, _ in ft.calls)
         private = set(n_ for n_ in m.functions if n_.startswith('_') and not n_.startswith('__') and n_ not in used_elsewhere and n_ in called)
+        # nested helpers that never leave the function they are defined in (only ever *called* there: `def walk(j, path)` inside a factory) are
+        # private too: a working set they fill belongs to whoever passes it, and is judged there
+        for top, tfi in m.functions.items():
+            for g in [y for y in ast.walk(tfi.node) if isinstance(y, ast.FunctionDef) and y is not tfi.node]:
+                callee_ids = set(id(c.func) for c in ast.walk(tfi.node) if isinstance(c, ast.Call))
+                escapes = any(isinstance(y, ast.Name) and y.id == g.name and isinstance(y.ctx, ast.Load) and id(y) not in callee_ids for y in ast.walk(tfi.node))
+                if not escapes:
+                    private.add('%s.%s' % (top, g.name))
         for q, node, recv, pname, via in own.param_mutations(results, private):
             if via:
                 msg = '%s passes the caller-owned object "%s" (from parameter %s) to %s(), which mutates that argument in place' % (q, recv, pname, via)
